@@ -221,7 +221,13 @@ impl TimeTrigger {
         for _ in 0..(24 * 4) {
             match Local.from_local_datetime(&naive) {
                 LocalResult::Single(time) => return time,
-                LocalResult::Ambiguous(earliest, latest) => {
+                LocalResult::Ambiguous(one, other) => {
+                    // chrono does not order the two candidates by instant
+                    let (earliest, latest) = if one <= other {
+                        (one, other)
+                    } else {
+                        (other, one)
+                    };
                     return if earliest > after { earliest } else { latest };
                 }
                 LocalResult::None => naive += Duration::minutes(15),
